@@ -130,11 +130,14 @@ func (cm *Manager) LockV2Contract(id types.FileContractID) (rev rhp4.RevisionSta
 	}
 
 	renewed := contract.RenewedTo != (types.FileContractID{})
+	// a contract whose formation was never confirmed has been given up: its
+	// sector roots are deleted from the store as soon as it is rejected
+	rejected := contract.Status == V2ContractStatusRejected
 	var maxRevisionHeight uint64
 	if contract.ProofHeight > cm.revisionSubmissionBuffer {
 		maxRevisionHeight = contract.ProofHeight - cm.revisionSubmissionBuffer
 	}
-	revisable := !renewed && cm.chain.Tip().Height < maxRevisionHeight
+	revisable := !renewed && !rejected && cm.chain.Tip().Height < maxRevisionHeight
 	return rhp4.RevisionState{
 			Revision:  contract.V2FileContract,
 			Renewed:   renewed,
